@@ -360,11 +360,29 @@ def carbons(side):
     return None if m is None else sum(1 for a in m.GetAtoms() if a.GetAtomicNum() == 6)
 
 
+_HH = []
+
+
+def harness_hash():
+    """digest of the harness sources: scratch computed by an older harness (other generators, other recorders) is never re-used"""
+    if not _HH:
+        import hashlib
+        h = hashlib.sha1()
+        root = os.path.dirname(os.path.abspath(__file__))
+        for dp, dn, fn in sorted(os.walk(root)):
+            for f in sorted(fn):
+                if f.endswith(".py") or f.endswith(".sh"):
+                    with open(os.path.join(dp, f), "rb") as fh:
+                        h.update(f.encode()); h.update(fh.read())
+        _HH.append(h.hexdigest()[:10])
+    return _HH[0]
+
+
 def cached(name, compute):
     """scratch shared between the properties of this engine, keyed by the tree hash of /repo"""
     d = os.path.join(WORK, "pipecache")
     os.makedirs(d, exist_ok=True)
-    p = os.path.join(d, "%s_v2_%s.json" % (name, tree_hash()))   # v2: tables include impute_fine
+    p = os.path.join(d, "%s_%s_%s.json" % (name, harness_hash(), tree_hash()))   # any change of the harness or of /repo invalidates the scratch
     if os.path.exists(p):
         try:
             with open(p) as f:
@@ -377,7 +395,7 @@ def cached(name, compute):
         json.dump(val, f)
     os.replace(tmp, p)
     for fn in os.listdir(d):  # drop scratch of other trees
-        if fn.startswith(name + "_") and fn != os.path.basename(p):
+        if fn.startswith(name + "_") and fn != os.path.basename(p) and fn.endswith(".json"):
             try:
                 os.remove(os.path.join(d, fn))
             except OSError:
